@@ -15,6 +15,7 @@ Model-free oracles on the implementation (see design/C11.md):
   repo_key  the same file snapshotted into two encrypted repositories (independent keys): boundaries differ
   handover  streams handed to the adapter as ONE block larger than twice every size constant (>= 1 MiB, read with ast) of
             adapters.py / repository.py, and as many blocks: identical outside the tail zone; the pair / edit oracles on them
+  aligned   every chunk that starts outside the tail zone ends at a multiple of 4 (C11_boundary_aligned on the implementation)
   history   several (stream, key) jobs on one or several adapter objects / RepositoryProps - sequentially in permuted order,
             interleaved, or started at different times (a native chunker is constructed while others are mid-stream) under a
             random advance schedule: every job is cut as by a brand-new adapter run alone (and as by the model); different
@@ -141,19 +142,23 @@ def good_key(rng, n=16):
             return k
 
 
-def gen_small(rng):
+def gen_small(rng, force=None):
     """Model-sized case: both streams <= ~620 bytes, max <= 64."""
     mx = rng.choice([8, 12, 16, 16, 20, 24, 32, 32, 48, 64])
     mn = rng.choice([1, 1, 2, 4, max(1, mx // 16), max(1, mx // 4), max(1, mx // 2)])
+    if rng.random() < 0.3 and mx >= 16:                    # min not a multiple of the alignment, well below max
+        mn = rng.choice([m for m in (5, 6, 7, 9, 10, 11, 13) if 2 * m <= mx])
     while c10.align4(mn) > mx:
         mn -= 1
+    if force:
+        mn, mx = force
     kind = rng.choices(['pair', 'unaligned', 'insert', 'delete', 'alter', 'keys'], [30, 8, 14, 14, 14, 6])[0]
     dkind = rng.choices(['random', 'blocks', 'periodic', 'zero', 'lowent'], [70, 12, 8, 4, 6])[0]
     key = b'' if rng.random() < 0.1 else (good_key(rng, rng.choice([1, 3, 8])) if rng.random() < 0.1 else good_key(rng))
     case = {'kind': kind, 'key': key.hex(), 'mn': mn, 'mx': mx, 'dseed': rng.getrandbits(32), 'dkind': dkind,
             'segseed': rng.getrandbits(32), 'model': True, 'whole': False}
     if kind in ('pair', 'unaligned'):
-        n = rng.randint(2 * mx, 560)
+        n = rng.randint(2 * mx, max(2 * mx, 560))
         l1 = 4 * rng.randint(0, 14)
         l2 = 4 * rng.randint(0, 14)
         if kind == 'unaligned':
@@ -166,7 +171,7 @@ def gen_small(rng):
         if not key:
             case['key'] = good_key(rng).hex()
     else:
-        n = rng.randint(3 * mx, 600)
+        n = rng.randint(3 * mx, max(3 * mx, 600))
         L = 4 * rng.randint(1, 6) if kind != 'alter' else rng.randint(1, 20)
         at = rng.randint(0, max(0, n - L - 1))
         if rng.random() < 0.3:
@@ -175,12 +180,16 @@ def gen_small(rng):
     return case
 
 
-def gen_large(rng, tier_big):
+def gen_large(rng, tier_big, force=None):
     """Oracle-only case; high-entropy, max >= 64, min <= max/16: the distance bound applies when aligned."""
     mx = rng.choice([64, 64, 80, 96, 128, 192, 256] + ([512, 1024] if tier_big else []))
     if rng.random() < 0.15:
         mx += rng.choice([1, 2, 3, 5])                      # max not a multiple of 4
     mn = rng.choice([1, 2, 4, max(1, mx // 32), mx // 16])
+    if rng.random() < 0.35 and mx >= 80:                   # min not a multiple of the alignment, min <= max/16
+        mn = rng.choice([m for m in range(5, mx // 16 + 1) if m % 4])
+    if force:
+        mn, mx = force
     kind = rng.choices(['pair', 'unaligned', 'insert', 'delete', 'alter', 'keys'], [22, 6, 20, 20, 20, 12])[0]
     case = {'kind': kind, 'key': good_key(rng).hex(), 'mn': mn, 'mx': mx, 'dseed': rng.getrandbits(32), 'dkind': 'random',
             'segseed': rng.getrandbits(32), 'model': False, 'whole': rng.random() < 0.5}
@@ -303,6 +312,19 @@ def evaluate(case, chunks1, chunks2):
         problems.append(('chunks do not concatenate to the stream', 'lossless'))
         return problems, st
     e1, e2 = ends_of(chunks1), ends_of(chunks2)
+    # ---- aligned (C11_boundary_aligned): a chunk that starts outside the tail zone ends at a multiple of the alignment; an
+    # unaligned cut shifts the candidate positions of everything after it, so streams related by an aligned edit examine
+    # disjoint positions until another such cut happens
+    for which, X, ends in ((1, X1, e1), (2, X2, e2)):
+        bad = next((k for k in range(len(ends) - 1) if len(X) - ends[k] >= 2 * mx and ends[k + 1] % 4), None)
+        if bad is not None:
+            other = (e2 if which == 1 else e1)
+            res = sorted({b % 4 for b, Xo in ((b, X2 if which == 1 else X1) for b in other[1:]) if len(Xo) - b >= 2 * mx})
+            problems.append((f'{case["kind"]} case (min {mn}, max {mx}): stream {which} ({len(X)} bytes) cuts the chunk starting at offset {ends[bad]} '
+                             f'at {ends[bad + 1]} = {ends[bad + 1] % 4} (mod 4), {len(X) - ends[bad + 1]} bytes before the end: every later cut candidate of this '
+                             f'stream is shifted off the 4-byte grid (boundary residues of the other stream outside its tail zone: {res}), so the two '
+                             f'streams cannot share a boundary there and an aligned edit does not re-synchronise', 'aligned'))
+            break
     if case['kind'] == 'keys':
         st['chunks'] = len(chunks1)
         st['same'] = e1 == e2
@@ -903,6 +925,21 @@ def search(ctx, broken) -> Report:
             sessions.append({k: v for k, v in c.items() if k not in ('model_lengths', 'impl_lengths')})
         elif isinstance(c, dict) and 'kind' in c and 'dseed' in c:
             cases.append({k: v for k, v in c.items() if k not in ('model_lengths', 'impl_lengths')})
+    # the parameters (key, min, max) of every case on which model and implementation disagreed are tried first, on fresh
+    # streams of every kind, model-sized and long
+    seen = []
+    for c in list(cases) + [j for ss in sessions for j in [dict(ss, key=ss['jobs'][0]['key'])]]:
+        par = (c.get('key', ''), c['mn'], c['mx'])
+        if par not in seen:
+            seen.append(par)
+    focused = []
+    for key, mn, mx in seen[:12]:
+        for small in [True] * 40 + [False] * 6:
+            c = gen_small(rng, force=(mn, mx)) if small else gen_large(rng, False, force=(mn, mx))
+            if key and c['kind'] != 'keys':
+                c['key'] = key
+            focused.append(c)
+    cases = focused + cases
     sessions += [gen_session(rng, True) for _ in range(400)] + [gen_session(rng, False) for _ in range(150)]
     check_sessions(sessions, rep, with_model=False, stats=stats)
     for _ in range(1500):
